@@ -477,6 +477,10 @@ class Bombs(Suite):
             for inflated in (32 << 20, 64 << 20):
                 out.append({"fmt": "vmdk", "grain_size": gs, "inflated": inflated, "req": [0, 1], "salt": 0})
                 out.append({"fmt": "vmdk", "grain_size": gs, "inflated": inflated, "req": [0, gs], "salt": 0})
+                for front in (0, 1 << 32, gs * 4096):
+                    # the header copy at sector 0 disagrees with the footer (the header that counts) about the grain size
+                    out.append({"fmt": "vmdk", "grain_size": gs, "front_grain_size": front, "inflated": inflated, "req": [0, 1],
+                                "salt": 0})
         # a kilobyte of image that claims huge allocation units (nothing allocated): a small request stays small
         for comp in (True, False):
             for gbits in (15, 17, 19):
